@@ -555,6 +555,7 @@ func (x *Exec) cutLoop(s *State, ord int, label string, spec *LoopSpec, pos toke
 	x.loopFrameOblige(s, frameNames, ord, "entry", x.pos(pos))
 	h := s.clone()
 	h.calls, h.callsOpen = nil, true // an unknown number of iterations may have called out of the module
+	h.logBad = true                  // ... and may have written: the ghost write log is unknown from here on
 	x.havocVars(h, ws)
 	x.loopFrameAssume(h, frameNames)
 	if spec != nil {
